@@ -168,6 +168,150 @@ def run_real(impl, name, shape, kw, dtype, req):
     return {"calls": rec.calls, "problems": problems, "data": t.data}
 
 
+# ------------------------------------------------------------------ initialisers under every grad-mode context
+CONTEXTS = {"plain": [], "no_grad": ["no_grad"], "retain_grads": ["retain_grads"],
+            "no_grad>retain_grads": ["no_grad", "retain_grads"], "retain_grads>no_grad": ["retain_grads", "no_grad"],
+            "no_grad>no_grad": ["no_grad", "no_grad"]}
+NINE = [("uniform_", {"a": -0.5, "b": 0.5}), ("normal_", {"mean": 0.0, "std": 0.5}), ("constant_", {"val": 0.25}), ("ones_", {}), ("zeros_", {}),
+        ("xavier_uniform_", {"gain": 2.0}), ("xavier_normal_", {}), ("kaiming_uniform_", {"a": 0.2}), ("kaiming_normal_", {"mode": "fan_out", "nonlinearity": "relu"})]
+
+
+def tensor_state(impl, t):
+    """everything but the contents of .data: compared before/after an initialiser"""
+    np = impl.np
+    st = {"id": id(t), "class": type(t).__name__, "shape": tuple(t.data.shape), "dtype": str(t.data.dtype), "requires_grad": bool(t.requires_grad),
+          "_grad_id": id(t._grad) if t._grad is not None else None, "_grad_val": None if t._grad is None else t._grad.copy(),
+          "grad_fn_id": id(t.grad_fn) if t.grad_fn is not None else None, "_children_ids": tuple(id(c) for c in t._children),
+          "name": t.name, "is_leaf": bool(t.is_leaf), "attrs": sorted(t.__dict__)}
+    for k, v in t.__dict__.items():
+        if k not in ("data", "_grad", "_grad_fn", "_children", "_requires_grad", "_name"):
+            st["attr:" + k] = v if isinstance(v, (bool, int, float, str, type(None))) else id(v)
+    return st
+
+
+def state_diff(np, a, b):
+    out = []
+    for k in a:
+        if k == "_grad_val":
+            if (a[k] is None) != (b[k] is None) or (a[k] is not None and not np.array_equal(a[k], b[k])):
+                out.append("_grad contents changed")
+        elif a[k] != b.get(k):
+            out.append("%s: %r -> %r" % (k, a[k], b.get(k)))
+    return out
+
+
+def make_subject(impl, kind, shape, dtype, req):
+    """returns (tensor, module or None, keepalive)"""
+    np, sg, nn = impl.np, impl.synapgrad, impl.nn
+    data = np.full(shape, 3.0, dtype=dtype)
+    if kind == "tensor":
+        t = sg.Tensor(data, requires_grad=req, name="w0")
+        mod = None
+    elif kind == "parameter":
+        class M(nn.Module):
+            def __init__(self):
+                super().__init__()
+                self.w = nn.Parameter(data, requires_grad=req, name="w0")
+        mod = M()
+        t = mod.w
+    else:   # non-leaf result with grad_fn and children (only meaningful when it requires grad)
+        x = sg.Tensor(data.copy(), requires_grad=True, name="x")
+        t = x * 2.0
+        t._name = "w0"
+        return t, None, x
+    if req:     # give it a gradient through a real backward
+        (t * 1.0).sum().backward()
+    return t, mod, None
+
+
+def context_case(impl, fname, kw, cname, kind, req, dtype):
+    """one initialiser call inside the grad-mode context `cname`; returns the list of things that changed but must not"""
+    import contextlib
+    np, sg = impl.np, impl.synapgrad
+    impl.reset_modes()
+    t, mod, keep = make_subject(impl, kind, (3, 4), dtype, req)
+    before = tensor_state(impl, t)
+    old_data = t.data
+    bad = []
+    try:
+        with contextlib.ExitStack() as st:
+            for c in CONTEXTS[cname]:
+                st.enter_context(getattr(sg, c)())
+            modes_in = (impl.grad_mode(), impl.retain_mode())
+            out = getattr(impl.nn.init, fname)(t, **kw)
+            if (impl.grad_mode(), impl.retain_mode()) != modes_in:
+                bad.append("the initialiser changed the global grad mode")
+    except Exception as ex:
+        bad.append("raised %r" % ex)
+        out = t
+    if (impl.grad_mode(), impl.retain_mode()) != (True, False):
+        bad.append("grad mode not restored")
+    if out is not t:
+        bad.append("returns a different object")
+    bad += state_diff(np, before, tensor_state(impl, t))
+    if t.data is old_data and not bad:
+        bad.append(".data not rebound")
+    if mod is not None:
+        if mod._parameters.get("w") is not t or mod.w is not t or not any(p is t for p in mod.parameters()):
+            bad.append("module registration of the parameter changed")
+    impl.reset_modes()
+    return bad
+
+
+def run_contexts(impl, ctx_quick):
+    """every initialiser x grad-mode context x requires_grad x dtype x kind of tensor. Returns (cases, mismatches, witnesses)"""
+    import contextlib
+    np, sg = impl.np, impl.synapgrad
+    mism, wit, n = [], [], 0
+    for cname in CONTEXTS:
+        for fname, kw in NINE:
+            for kind in ("tensor", "parameter", "nonleaf"):
+                for req in ((True,) if kind == "nonleaf" else (True, False)):
+                    for dtype in (np.float32, np.float64):
+                        n += 1
+                        bad = context_case(impl, fname, kw, cname, kind, req, dtype)
+                        if bad:
+                            desc = {"fn": fname, "kwargs": kw, "context": cname, "kind": kind, "requires_grad": req, "dtype": str(np.dtype(dtype)), "shape": [3, 4]}
+                            mism.append(dict(desc, problems=bad))
+                            wit.append(("nn.init." + fname, desc, "only .data is rebound; identity, shape, dtype, requires_grad, _grad, grad_fn, _children, name, registration unchanged", bad))
+    # layers: reset_parameters under every context
+    for cname, stack in CONTEXTS.items():
+        for lname, args in (("Linear", (3, 4)), ("Conv1d", (2, 3, 3)), ("Conv2d", (2, 3, 2))):
+            for bias in (True, False):
+                for frozen in (False, True):
+                    n += 1
+                    impl.reset_modes()
+                    layer = getattr(impl.nn, lname)(*args, bias=bias)
+                    ps = [("weight", layer.weight)] + ([("bias", layer.bias)] if bias else [])
+                    if frozen:
+                        layer.freeze()
+                    else:
+                        x = sg.Tensor(np.ones((2, 3) if lname == "Linear" else ((1, 2, 5) if lname == "Conv1d" else (1, 2, 4, 4)), dtype=np.float32))
+                        layer(x).sum().backward()
+                    before = {k: tensor_state(impl, p) for k, p in ps}
+                    bad = []
+                    try:
+                        with contextlib.ExitStack() as st:
+                            for c in stack:
+                                st.enter_context(getattr(sg, c)())
+                            layer.reset_parameters()
+                    except Exception as ex:
+                        bad.append("raised %r" % ex)
+                    for k, p in ps:
+                        if getattr(layer, k) is not p or layer._parameters.get(k) is not p:
+                            bad.append("%s is no longer the registered parameter" % k)
+                        bad += ["%s.%s" % (k, d) for d in state_diff(np, before[k], tensor_state(impl, p))]
+                    if [id(p) for p in layer.parameters()] != [id(p) for _, p in ps]:
+                        bad.append("layer.parameters() changed")
+                    if bad:
+                        desc = {"layer": lname, "args": list(args), "bias": bias, "frozen": frozen, "context": cname}
+                        mism.append(dict(desc, problems=bad))
+                        wit.append(("nn.%s.reset_parameters" % lname, desc, "parameters keep identity, flags, gradient and registration; only .data is rebound", bad))
+    impl.reset_modes()
+    wit.sort(key=lambda w: (0 if any(str(b).startswith("requires_grad") or ".requires_grad" in str(b) for b in w[3]) else 1, len(w[3])))
+    return n, mism, wit
+
+
 def run(ctx):
     rng = ctx.rng
     gen = _gen()
@@ -380,6 +524,14 @@ def run(ctx):
     ctx.tie("init/layer reset", "correspondence", lcases, lcases, lm,
             note="Linear / Conv1d / Conv2d constructors: numpy.random.uniform calls for weight and bias vs U(-1/sqrt(fan_in), 1/sqrt(fan_in)) and the weight's shape")
 
+    # ---- every initialiser / layer reset under every grad-mode context
+    ncx, cmm, cwit = run_contexts(impl, ctx.quick)
+    witnesses += cwit
+    ctx.tie("init/grad-mode contexts", "correspondence", ncx, ncx, cmm, exhaustive=True,
+            note="9 initialisers x {plain, no_grad, retain_grads, nested both ways, no_grad twice} x {Tensor, Parameter registered in a Module, non-leaf result} x "
+                 "requires_grad on/off x float32/float64, and Linear/Conv1d/Conv2d.reset_parameters x contexts x bias x frozen: identity, shape, dtype, requires_grad, "
+                 "_grad (object and contents), grad_fn, _children, name, every other attribute, module registration unchanged; global modes restored; only .data rebound")
+
     # ---- translator self-check summary
     if G is not None:
         ctx.tie("translator/IR vs real functions", "translator-selfcheck", gcases + fcases + len(cases) + len(MALFORMED) + pcases + lcases,
@@ -436,6 +588,10 @@ def replay(ctx, data):
     site, inp = data["site"], data["input"]
     print("site:", site, "input:", json.dumps(inp))
     name = site.split(".")[-1]
+    if "context" in inp and "fn" in inp:
+        bad = context_case(impl, inp["fn"], inp["kwargs"], inp["context"], inp["kind"], inp["requires_grad"], np.dtype(inp["dtype"]).type)
+        print("changed although it must not:", bad if bad else "nothing (only .data was rebound)")
+        return 1 if bad else 0
     if name in ("xavier_uniform_", "xavier_normal_", "kaiming_uniform_", "kaiming_normal_"):
         r = run_real(impl, name, tuple(inp["shape"]), inp.get("kwargs", {}), np.dtype(inp.get("dtype", "float32")).type, inp.get("requires_grad", False))
         try:
